@@ -8,7 +8,7 @@ import (
 	"sync"
 	"testing"
 
-	"github.com/attestantio/dirk/services/fetcher"
+	memfetcher "github.com/attestantio/dirk/services/fetcher/mem"
 	"github.com/herumi/bls-eth-go-binary/bls"
 	e2types "github.com/wealdtech/go-eth2-types/v2"
 	distributed "github.com/wealdtech/go-eth2-wallet-distributed"
@@ -41,7 +41,7 @@ type Population struct {
 	byPath    map[string]*AcctInfo
 	// Shared: build the fetcher once per process and pre-unlock every account.
 	Shared        bool
-	sharedFetcher fetcher.Service
+	sharedFetcher *memfetcher.Service
 }
 
 var blsOnce sync.Once
